@@ -400,7 +400,8 @@ func isAddSegOf(e ssa.Value, childErr func(ssa.Value) bool) bool {
 //
 //	(1) the one-of's discriminator field name (the string field tagged `discriminator_field_name` of the receiver), or
 //	(2) a parameter of the enclosing function that, at every call site, is a key of the data being processed (an element
-//	    of reflect.Value.MapKeys(), a range key, or a type assertion of one),
+//	    of reflect.Value.MapKeys(), a range key, or a type assertion of one), or
+//	(3) such a key itself (the key the enclosing loop is at),
 //
 // also stores a Path.
 func (c *Ctx) ruleElemPath(rule string) {
@@ -496,6 +497,9 @@ func (c *Ctx) ruleElemPath(rule string) {
 		}
 		return sites > 0
 	}
+	// clause (3) speaks of the operations the property names: Unserialize and Validate (the compatibility checks word
+	// their refusals of a key differently, and carry no paths)
+	unserOrValidate := c.reachableOutsideRecover(c.entryData("Unserialize", "Validate"))
 	n := 0
 	for _, fn := range c.M.SortedFuncs(c.scopeData()) {
 		cnt := 0
@@ -544,6 +548,9 @@ func (c *Ctx) ruleElemPath(rule string) {
 					if p, ok := a.(*ssa.Parameter); ok && paramIsKeyEverywhere(fn, p) {
 						what = "a key of the data (parameter " + p.Name() + ", a data key at every call site)"
 					}
+					if what == "" && unserOrValidate[fn] && isDataKey(a, 0) {
+						what = "a key of the data (the key the enclosing loop is at)"
+					}
 				}
 				if what == "" {
 					continue
@@ -551,7 +558,9 @@ func (c *Ctx) ruleElemPath(rule string) {
 				n++
 				cnt++
 				k := key(rule, c.M.Key(fn), sprintf("rejection #%d that names %s in its text names it in its path", cnt, what))
-				if hasPath {
+				if !hasPath && wrappedWithSegment(al) {
+					c.R.Ok(rule, k, c.M.InstrPos(al), "error raised by a container about one of its elements", "the literal is handed to ConstraintErrorAddPathSegment where it is built")
+				} else if hasPath {
 					c.R.Ok(rule, k, c.M.InstrPos(al), "error raised by a container about one of its elements", "the literal stores a Path")
 				} else {
 					c.R.Bad(rule, k, c.M.InstrPos(al), "an error about "+what+" has no path segment for it",
@@ -571,4 +580,36 @@ func fieldsOfType(t types.Type) *types.Struct {
 	}
 	st, _ := t.Underlying().(*types.Struct)
 	return st
+}
+
+// wrappedWithSegment: the error literal (a *ConstraintError alloc) is an argument of ConstraintErrorAddPathSegment or
+// the receiver of AddPathSegment.
+func wrappedWithSegment(al *ssa.Alloc) bool {
+	seen := map[ssa.Value]bool{}
+	var rec func(v ssa.Value, d int) bool
+	rec = func(v ssa.Value, d int) bool {
+		if d > 3 || seen[v] || v.Referrers() == nil {
+			return false
+		}
+		seen[v] = true
+		for _, r := range *v.Referrers() {
+			switch x := r.(type) {
+			case *ssa.MakeInterface:
+				if rec(x, d+1) {
+					return true
+				}
+			case *ssa.ChangeInterface:
+				if rec(x, d+1) {
+					return true
+				}
+			case *ssa.Call:
+				n := core.StaticCalleeName(&x.Call)
+				if strings.HasSuffix(n, "ConstraintErrorAddPathSegment") || strings.HasSuffix(n, ".AddPathSegment") {
+					return true
+				}
+			}
+		}
+		return false
+	}
+	return rec(al, 0)
 }
